@@ -76,6 +76,11 @@ def Node.checkTx (n : Node) (tx : Tx) : Node × TxResult :=
   let (s, r) := Mainchain.checkTx Facts.anteOrder n.check tx
   ({ n with check := s }, r)
 
+/-- CheckTx of type Recheck (mempool re-validation after a commit) on the check state -/
+def Node.recheckTx (n : Node) (tx : Tx) : Node × TxResult :=
+  let (s, r) := Mainchain.recheckTx Facts.anteOrder n.check tx
+  ({ n with check := s }, r)
+
 /-- `EndBlock` : the governance messages due in this block -/
 def Node.endBlock (n : Node) (wall : Nat) (govs : List (List Msg)) : Node × List Bool :=
   let (s, rs) := govs.foldl (fun (acc : State × List Bool) ms =>
